@@ -10,6 +10,9 @@ All theorems hold for every configuration (acks ≠ None is built in: every atte
 transport error) and every reachable state / accepted event, i.e. every finite event sequence.
 -/
 import KafkaVerif.Lemmas.WriterCompl
+import KafkaVerif.Lemmas.WriterMsgs
+import KafkaVerif.Lemmas.WriterLogJournal
+import KafkaVerif.Gen.WriterConsts
 
 namespace KV.C01
 open KV KV.Writer
@@ -126,6 +129,16 @@ theorem assign_is_balancer_choice (cfg : Cfg) (s s' : State) (c i : Nat) (tp : T
   cases hs
   exact ⟨C, m, hC, hlen, hmi, by simpa using hch, by simp⟩
 
+/-- **makeError_nil_only_for_zero** — the source's `makeError` (regenerated on every run) turns a produce response's
+error code into a nil error only for code 0; this is what the model's `consistent` relies on: a broker rejection with
+any other code (negative ones included) cannot end an attempt without error. -/
+theorem makeError_nil_only_for_zero (code : Int) : Gen.makeErrorNil code = true ↔ code = 0 := by
+  simp [Gen.makeErrorNil]
+
+theorem rejection_is_an_error (c code : Code) (h : consistent (some (.rejected c)) code = true) : code ≠ 0 ∧ code = c := by
+  simp [consistent] at h
+  exact ⟨fun h0 => h.2 (h.1 ▸ h0), h.1⟩
+
 /-- **ok_needs_broker_ack** — an attempt can end without error on the client side only if the broker applied and
 acknowledged exactly that attempt. -/
 theorem ok_needs_broker_ack (cfg : Cfg) (s s' : State) (pw b k : Nat) (hs : step cfg s (.attemptDone pw b k 0) = some s') :
@@ -226,6 +239,54 @@ theorem detach_once (cfg : Cfg) (s s' : State) (pw b : Nat) (why : Why) (size : 
   refine ⟨P, B, hP, hB, hc, hd, ?_, { B with detached := some why }, by simp, rfl⟩
   intro h; subst h; simpa [whyOk] using hw
 
+/-- **retry_matches_source** — the model's retry decision `afterAttempt` is the loop of `(*partitionWriter).writeBatch` as it
+stands in writer.go (regenerated on every run): another attempt is made exactly when the attempt failed, the error
+is temporary or a transient network error, and the attempt counter stays below MaxAttempts. -/
+theorem retry_matches_source (cfg : Cfg) (b k : Nat) (code : Code) (temp trans : Bool)
+    (hcls : cfg.retriable code = (temp || trans)) :
+    (afterAttempt cfg b k code = .ready b (k + 1)) ↔ Gen.retryAgain (code == 0) temp trans k cfg.maxAttempts = true := by
+  unfold afterAttempt Gen.retryAgain
+  by_cases h0 : code = 0
+  · subst h0; simp
+  · by_cases hr : cfg.retriable code = true <;> by_cases hk : k + 1 < cfg.maxAttempts
+    all_goals (rw [hcls] at hr; cases temp <;> cases trans <;> simp_all)
+
+theorem nodup_map_msg_inj (l : List BMsg) (h : (l.map (·.msg)).Nodup) :
+    ∀ m ∈ l, ∀ m' ∈ l, m.msg = m'.msg → m = m' := by
+  induction l with
+  | nil => intro m hm; cases hm
+  | cons a t ih =>
+    simp only [List.map_cons, List.nodup_cons] at h
+    obtain ⟨hnot, ht⟩ := h
+    intro m hm m' hm' e
+    rcases List.mem_cons.mp hm with h1 | h1 <;> rcases List.mem_cons.mp hm' with h2 | h2
+    · rw [h1, h2]
+    · exact absurd (List.mem_map.mpr ⟨m', h2, by rw [← e, h1]⟩) hnot
+    · exact absurd (List.mem_map.mpr ⟨m, h1, by rw [e, h2]⟩) hnot
+    · exact ih ht m h1 m' h2 e
+
+/-- **message_in_exactly_one_batch** — an accepted message (an index of a call that was appended) sits in exactly one
+batch, the one `place` names, and exactly once in it.  With `completion_once` (one Completion call per completed
+batch, with the batch's final error) this is "the Completion callback receives every accepted message exactly once
+with that same outcome"; with `dups_only_after_lost_ack` it bounds the copies of the message in the log. -/
+theorem message_in_exactly_one_batch (cfg : Cfg) (s : State) (hr : Reachable cfg s) (c i : Nat) (C : Call)
+    (hC : s.calls c = some C) (b : Nat) (hp : C.place i = some b) :
+    (∃ B m, s.batches b = some B ∧ m ∈ B.msgs ∧ m.msg = (c, i) ∧ ∀ m' ∈ B.msgs, m'.msg = (c, i) → m' = m) ∧
+    (∀ b' B' m, s.batches b' = some B' → m ∈ B'.msgs → m.msg = (c, i) → b' = b) := by
+  have hP := invPlace cfg s hr
+  have hM := invMsgs cfg s hr
+  constructor
+  · obtain ⟨B, hB, ⟨m, hm, hmm⟩, -⟩ := hP.placed c C hC i b hp
+    refine ⟨B, m, hB, hm, hmm, ?_⟩
+    intro m' hm' hmm'
+    exact nodup_map_msg_inj B.msgs (hM.nodup b B hB) m' hm' m hm (hmm'.trans hmm.symm)
+  · intro b' B' m hB' hm hmm
+    obtain ⟨X, hX, -, hpl⟩ := hP.batchTP b' B' hB' m hm
+    rw [hmm] at hX hpl
+    rw [hC] at hX; cases hX
+    simp only at hpl
+    rw [hp] at hpl; cases hpl; rfl
+
 /-- **completion_before_done** — `complete` (closing batch.done, which lets WriteMessages return) is enabled only
 after the Completion callback ran when one is configured, and with the same error. -/
 theorem completion_before_done (cfg : Cfg) (s s' : State) (pw b : Nat) (code : Code)
@@ -255,6 +316,14 @@ theorem dups_only_after_lost_ack (cfg : Cfg) (s : State) (hr : Reachable cfg s) 
   | acked => exact absurd ho hna
   | lost a => rw [ho] at happ; simp [BrOut.applied] at happ; rw [happ]
   | rejected c => rw [ho] at happ; simp [BrOut.applied] at happ
+
+/-- **log_is_applied_journal** — the log of every topic-partition is exactly the concatenation, in the order of the
+broker's decisions, of the batches of the produce attempts it applied to that partition ("it appears in the log at
+most once per produce attempt that the broker actually applied" — and at least once, and nothing else appears). -/
+theorem log_is_applied_journal (cfg : Cfg) (s : State) (hr : Reachable cfg s) (tp : TP) :
+    (s.log tp).map (·.msg) =
+      (s.journal.filter (fun j => j.out.applied && (j.tp == tp))).flatMap (fun j => batchMsgs s.batches j.batch) :=
+  (invLogJ cfg s hr).logJournal tp
 
 /-- **acked_has_journal_entry** — "acknowledged" is the broker's own record: a batch counts as acknowledged exactly
 when the journal holds an applied-and-acknowledged decision for it on its topic-partition. -/
